@@ -1,6 +1,7 @@
 package main
 
 import (
+	"path/filepath"
 	"bytes"
 	"strings"
 	"encoding/hex"
@@ -181,6 +182,22 @@ func genC09Subsets(w *caseWriter, st *pkgStats, rng *rand.Rand, special bool) in
 			n++
 			runPkgCase(w, fmt.Sprintf("s-%s-shared-%d", format, k), pkgDesc{YAML: marshalConfig(&c), Files: extra, Formats: []string{format}}, st, nil)
 		}
+		// script paths that go through a symbolic link and back up: the operating system resolves "hooks/.." to the
+		// parent of the link's TARGET, a lexical clean-up of the path to the directory that holds the link - and
+		// different scripts sit at the two places
+		{
+			c := baseConfig("viasymlink")
+			c.Contents = files.Contents{{Source: "src/f1", Destination: "/usr/bin/f1"}}
+			extra := []extraFile{{Path: "real/hooks/.placeholder", Hex: "", Mode: 0o644, MTime: 1650000000}, {Path: "proj/hooks", Link: "../real/hooks"}}
+			for _, s := range own {
+				extra = append(extra,
+					extraFile{Path: "real/" + s.name, Hex: hex.EncodeToString([]byte("#!/bin/sh\necho the configured script " + s.name + "\n")), Mode: 0o755, MTime: 1650000000},
+					extraFile{Path: "proj/" + s.name, Hex: hex.EncodeToString([]byte("#!/bin/sh\necho a different file at the lexically cleaned path " + s.name + "\n")), Mode: 0o755, MTime: 1650000000})
+				s.set(&c, "proj/hooks/../"+s.name)
+			}
+			n++
+			runPkgCase(w, fmt.Sprintf("s-%s-paths-through-a-symlink", format), pkgDesc{YAML: marshalConfig(&c), Files: extra, Formats: []string{format}}, st, nil)
+		}
 	}
 	return n
 }
@@ -286,6 +303,24 @@ func genC04Shapes(w *caseWriter, st *pkgStats) int {
 	c = baseConfig("rootdir")
 	c.Contents = files.Contents{{Destination: "/", Type: files.TypeDir}, {Source: "src/f1", Destination: "/f1"}}
 	emit("dir-at-root", c, nil)
+	// signed packages: the signature member's name is built from the configured role, of any length
+	for _, role := range []string{"builder", "twelve-chars", "thirteen-char", "release-manager-2"} {
+		c = baseConfig("signedrole")
+		c.Contents = files.Contents{{Source: "src/f1", Destination: "/usr/bin/f1"}}
+		c.Deb.Signature.Method, c.Deb.Signature.Type = "dpkg-sig", role
+		c.Deb.Signature.KeyFile = filepath.Join(repoDir(), "internal/sign/testdata/privkey_unprotected.asc")
+		n++
+		runPkgCase(w, fmt.Sprintf("h-dpkg-sig-role-%s-%d", role, n), pkgDesc{YAML: marshalConfig(&c), Formats: []string{"deb"}}, st, nil)
+	}
+	for _, typ := range []string{"origin", "maint", "archive"} {
+		c = baseConfig("signedtype")
+		c.Contents = files.Contents{{Source: "src/f1", Destination: "/usr/bin/f1"}}
+		c.Deb.Signature.Type = typ
+		c.Deb.Signature.KeyFile = filepath.Join(repoDir(), "internal/sign/testdata/privkey_unprotected.asc")
+		c.RPM.Signature.KeyFile = c.Deb.Signature.KeyFile
+		c.APK.Signature.KeyFile, c.APK.Signature.KeyName = filepath.Join(repoDir(), "internal/sign/testdata/rsa_unprotected.priv"), "verif.rsa.pub"
+		emit("signed-"+typ, c, nil)
+	}
 	for _, size := range []int{512, 1024, 4096, 511, 513} {
 		c = baseConfig("blocks")
 		c.Contents = files.Contents{{Source: "src/f1", Destination: "/usr/bin/f1"}}
